@@ -244,7 +244,7 @@ def m2(ctx, al, cfg, what, need=None):
 
 
 # --------------------------------------------------------------------------------------------------
-FLOAT_TOKS = ["1.4", "1.6", "3.7", "2.7", "0.4", "6.2", "9.8", "-2.5", "-0.3", "-inf", "nan"]
+FLOAT_TOKS = ["0.6", "1.4", "1.6", "3.7", "2.7", "0.4", "6.2", "9.8", "-2.5", "-0.3", "-inf", "nan"]
 
 
 def record_history(ctx, al, length):
